@@ -68,6 +68,9 @@ class frozen_clock:
             def now(cls, tz=None):
                 base = cls(clk.year, clk.month, clk.day, clk.hour, clk.minute, clk.second, clk.microsecond)
                 if tz is None:
+                    if os.environ.get("TZ", "UTC") not in ("UTC", ""):
+                        loc = base.replace(tzinfo=_dt.timezone.utc).astimezone()      # process zone (TZ environment)
+                        return cls(loc.year, loc.month, loc.day, loc.hour, loc.minute, loc.second, loc.microsecond)
                     return base
                 return base.replace(tzinfo=_dt.timezone.utc).astimezone(tz)
 
@@ -77,7 +80,7 @@ class frozen_clock:
 
             @classmethod
             def utcnow(cls):
-                return cls.now()
+                return cls(clk.year, clk.month, clk.day, clk.hour, clk.minute, clk.second, clk.microsecond)
         for name, mod in list(sys.modules.items()):
             if name.split(".")[0] == "dateparser" and mod is not None:
                 if getattr(mod, "datetime", None) is _dt.datetime:
@@ -94,6 +97,10 @@ class frozen_clock:
 def call_api(call, clock=None):
     """call = {"string":…, "languages":…, "locales":…, "region":…, "settings":…, "date_formats":…,
     "use_given_order":…}.  returns dict(date_obj, period, locale) or {"exception": "Type: msg"}"""
+    if call.get("local_zone"):
+        import time
+        os.environ["TZ"] = call["local_zone"]       # before tzlocal is first asked (fresh replay process)
+        time.tzset()
     dateparser = import_repo()
     from dateparser.date import DateDataParser
     kw = {}
